@@ -7,15 +7,19 @@
 
      kind      0 NewTCPClientWithConfig, 1 NewRTUClientWithConfig, 2 NewSerialClient
      request   []  (a nil packet.Request)  |  [constructor name; constructor args...] as in DispPacket.ctor_args
-     script    [swd_err; write_err; flush_err; [step...]],  step = [ctx_done; timer_fired; pick_ctx; rd; bytes]
-               rd: 0 data, 1 deadline exceeded, 2 io.EOF (with bytes), 3 other error (with bytes)
+     script    [swd_err; write_err; flush_err; [step...]],  step = [ctx; timer_fired; pick_ctx; rd; bytes]
+               ctx: 0 not done, 1 done with context.Canceled, 2 done with context.DeadlineExceeded
+               rd: 0 data, 1 os.ErrDeadlineExceeded, 2 io.EOF, 3 other error -- each with the bytes
+               the Read returned together with it (n > 0 with an error is allowed by io.Reader)
      want      []  |  [0; projected response]  |  [1; unit; fc; code]     the reply the scripted device
                is sending (used only by the verdicts, never by the model)
      result    ok [tid; projected response] | err [value-was-nil; is-ClientError; class...] | panic | [99]
-               class: bare     0 plain (errors.New / fmt.Errorf), 60 context error, else DispPacket.proj_err
+               class: bare     0 plain (errors.New / fmt.Errorf), 60 context.Canceled,
+                               61 context.DeadlineExceeded, else DispPacket.proj_err
                       wrapped  50 ErrPacketTooLong, 51 ErrClientNotConnected, 40..43 the transport's own
                                error (SetWriteDeadline, Write, Read, Flush), 0 an anonymous errors.New
-                               (timeout / no bytes), else DispPacket.proj_err of the wrapped cause
+                               (timeout / no bytes), 60 / 61 a context error inside a
+                               ClientError (never produced by the model), else DispPacket.proj_err of the cause
                [99]: the script ran out while the client was still reading
      trace     [0;bytes] BeforeWrite  [1;chunk;n;cls] AfterEachRead  [2;bytes] BeforeParse
                [3] Flush  [4;bytes] transport Write  [5;chunk;cls] transport Read  [6] SetWriteDeadline
@@ -33,13 +37,13 @@ Definition dec_kind (z : Z) : option kind :=
   match z with 0%Z => Some KTcp | 1%Z => Some KRtuNet | 2%Z => Some KSerial | _ => None end.
 Definition dec_rd (k : Z) (b : list N) : option rd :=
   match k with
-  | 0%Z => Some (RData b) | 1%Z => Some RTimeout | 2%Z => Some (REof b) | 3%Z => Some (RIoErr b) | _ => None
+  | 0%Z => Some (RData b) | 1%Z => Some (RTimeout b) | 2%Z => Some (REof b) | 3%Z => Some (RIoErr b) | _ => None
   end.
 Definition dec_step (v : val) : option step :=
   match v with
   | VL [VI c; VI t; VI p; VI k; VB b] =>
       match dec_rd k b with
-      | Some r => Some {| s_ctx := zbool c; s_timer := zbool t; s_pick := zbool p; s_rd := r |}
+      | Some r => Some {| s_ctx := zbool c; s_deadline := Z.eqb c 2; s_timer := zbool t; s_pick := zbool p; s_rd := r |}
       | None => None
       end
   | _ => None
@@ -94,7 +98,7 @@ Definition proj_site (s : site) : val :=
 Definition proj_cerr (e : cerr) : list val :=
   match e with
   | CNilRequest | CNoPort => [VI 0%Z; VI 0%Z]
-  | CCtx => [VI 0%Z; VI 60%Z]
+  | CCtx d => [VI 0%Z; VI (if d then 61 else 60)%Z]
   | CParse p => VI 0%Z :: proj_err p
   | CNotConnected => [VI 1%Z; VI 51%Z]
   | CTooLong => [VI 1%Z; VI 50%Z]
@@ -220,11 +224,12 @@ Fixpoint clean_delivery (steps : list step) (rest : list N) : option (list nat) 
       | st :: more =>
           if s_ctx st || s_timer st then None else
           match s_rd st with
-          | RTimeout => clean_delivery more rest
-          | RData b =>
+          | RData b | RTimeout b =>       (* with a nil error, or together with the read deadline *)
               if is_prefix b rest
               then option_map (cons (length b)) (clean_delivery more (skipn (length b) rest))
               else None
+          | REof b =>                     (* the stream may end with the reply: the last bytes with io.EOF *)
+              if list_eqb b rest then Some [length b] else None
           | _ => None
           end
       end
@@ -310,7 +315,7 @@ Definition verdict_C07 (c : ccase) (o : val) : N :=
   end.
 
 (* ---------- C08 ---------- *)
-Inductive expect := XCtx | XTimeout | XCtxOrTimeout | XIo (code : Z) | XTooLong | XAnyErr | XNone.
+Inductive expect := XCtx (deadline : bool) | XTimeout | XCtxOrTimeout (deadline : bool) | XIo (code : Z) | XTooLong | XAnyErr | XNone.
 
 (* more bytes than a Modbus frame can hold: 260 over the network, 256 on the serial line *)
 Definition spec_max (k : kind) : nat := if is_serial k then max_adu_rtu else max_adu_tcp.
@@ -321,8 +326,8 @@ Fixpoint c08_walk (k : kind) (steps : list step) (n : nat) (rest : list N) (size
   match steps with
   | [] => (XNone, sizes)
   | st :: more =>
-      if s_ctx st && s_timer st then (XCtxOrTimeout, sizes) else
-      if s_ctx st then (XCtx, sizes) else
+      if s_ctx st && s_timer st then (XCtxOrTimeout (s_deadline st), sizes) else
+      if s_ctx st then (XCtx (s_deadline st), sizes) else
       if s_timer st then (XTimeout, sizes) else
       let data (b : list N) (eof : bool) :=
         let n' := (n + length b)%nat in
@@ -336,18 +341,20 @@ Fixpoint c08_walk (k : kind) (steps : list step) (n : nat) (rest : list N) (size
         end in
       match s_rd st with
       | RIoErr _ => (XIo 42, sizes)
-      | RTimeout => c08_walk k more n rest sizes
+      | RTimeout b => data b false
       | RData b => data b false
       | REof b => data b true
       end
   end.
 
 Definition cerr_val (cls : Z) : val := v_err [VI 1%Z; VI 1%Z; VI cls].
+(* the context's own error, returned as it is: nil response, NOT a ClientError, Canceled or DeadlineExceeded *)
+Definition ctx_val (deadline : bool) : val := v_err [VI 1%Z; VI 0%Z; VI (if deadline then 61 else 60)%Z].
 Definition class_ok (x : expect) (o : val) : bool :=
   match x with
-  | XCtx => val_eqb o (v_err [VI 1%Z; VI 0%Z; VI 60%Z])
+  | XCtx d => val_eqb o (ctx_val d)
   | XTimeout => res_anon_client_err o
-  | XCtxOrTimeout => val_eqb o (v_err [VI 1%Z; VI 0%Z; VI 60%Z]) || res_anon_client_err o
+  | XCtxOrTimeout d => val_eqb o (ctx_val d) || res_anon_client_err o
   | XIo code => val_eqb o (cerr_val code)
   | XTooLong => val_eqb o (cerr_val 50)
   | XAnyErr => res_is_err o
@@ -360,6 +367,29 @@ Definition flush_alt (c : ccase) (x : expect) (o : val) : bool :=
   match x with XIo _ | XTooLong | XAnyErr => true | _ => false end.
 
 Definition no_transport_call (t : val) : bool := match t with VL [] => true | _ => false end.
+
+(* the bytes the transport handed to the client: the chunks of the Read events of the trace *)
+Fixpoint consumed (t : list val) : list N :=
+  match t with
+  | [] => []
+  | VL [VI 5%Z; VB c; _] :: r => c ++ consumed r
+  | _ :: r => consumed r
+  end.
+Definition has_failed_read (t : list val) : bool :=
+  existsb (fun e => match e with VL [VI 5%Z; _; VI 3%Z] => true | _ => false end) t.
+(* no frame is longer than this (MAP 4.1): 260 with the MBAP header, 256 on the serial line *)
+Definition frame_max (k : kind) : nat := if is_tcp_kind k then max_adu_tcp else max_adu_rtu.
+(* Oversize, judged on what the transport actually handed over (the Read events of the trace):
+   once more bytes have been received than a frame of the client's framing can hold the result must
+   be an error, and ErrPacketTooLong once they exceed the client's own limit (260 for the two
+   network clients, 256 for the serial client). *)
+Definition oversize_verdict (c : ccase) (o : val) (tl : list val) : option N :=
+  let k := c_kind (cc_cfg c) in
+  let got := length (consumed tl) in
+  if has_failed_read tl || negb (frame_max k <? got)%nat then None else
+  if (spec_max k <? got)%nat
+  then Some (if val_eqb o (cerr_val 50) || (flush_fails c && val_eqb o (cerr_val 43)) then HOLDS else VIOLATES)
+  else Some (if res_is_err o then HOLDS else VIOLATES).
 
 Definition verdict_C08 (c : ccase) (o t : val) : N :=
   let k := c_kind (cc_cfg c) in
@@ -375,6 +405,9 @@ Definition verdict_C08 (c : ccase) (o t : val) : N :=
       else if sc_write_err (cc_script c) then
         (if val_eqb o (cerr_val 41) || (flush_fails c && val_eqb o (cerr_val 43)) then HOLDS else VIOLATES)
       else
+        match (match t with VL tl => oversize_verdict c o tl | _ => None end) with
+        | Some v => v
+        | None =>
         let tcp := is_tcp_kind k in
         if negb (framing_agrees c) then NOT_JUDGED else
         match want_frame tcp (q_tid q) (cc_want c) with
@@ -388,16 +421,10 @@ Definition verdict_C08 (c : ccase) (o t : val) : N :=
             end
         | None => NOT_JUDGED
         end
+        end
   end.
 
 (* ---------- C12 ---------- *)
-(* the bytes the transport handed to the client: the chunks of the Read events of the trace *)
-Fixpoint consumed (t : list val) : list N :=
-  match t with
-  | [] => []
-  | VL [VI 5%Z; VB c; _] :: r => c ++ consumed r
-  | _ :: r => consumed r
-  end.
 Definition res_is_rtu_exception (o : val) : bool :=
   match o with VL (VI 1%Z :: _ :: _ :: VI 4%Z :: _) => true | _ => false end.
 Definition verdict_C12 (c : ccase) (o t : val) : N :=
@@ -428,7 +455,7 @@ Definition parser_reached (c : ccase) (o : val) : bool :=
   | Some _ =>
       c_connected (cc_cfg c) &&
       (res_is_ok o ||
-       match o with VL (VI 1%Z :: _ :: VI 0%Z :: VI cls :: _) => negb (Z.eqb cls 60) | _ => false end)
+       match o with VL (VI 1%Z :: _ :: VI 0%Z :: VI cls :: _) => negb (Z.eqb cls 60 || Z.eqb cls 61) | _ => false end)
   end.
 Definition written (t : list val) : option (list N) :=
   match filter (fun e => match e with VL [VI 4%Z; _] => true | _ => false end) t with
